@@ -57,6 +57,24 @@ func main() {
 		}
 		out := runOne(bin, simInput{Mode: "gen", Family: os.Args[2], Seed: seed, Index: idx, Tier: "quick", Verbose: verbose}, 10*time.Minute)
 		printOutcome(out)
+	case "gen": // gen <family> <seed> <index>: print the generated spec
+		if len(os.Args) < 5 {
+			usage()
+		}
+		seed, _ := strconv.ParseUint(os.Args[3], 10, 64)
+		idx, _ := strconv.Atoi(os.Args[4])
+		bin, _, err := buildSim(false)
+		if err != nil {
+			fmt.Fprintln(os.Stderr, err)
+			os.Exit(2)
+		}
+		out := runOne(bin, simInput{Mode: "gen", Family: os.Args[2], Seed: seed, Index: idx, Tier: "quick", GenOnly: true}, time.Minute)
+		if out.res == nil {
+			fmt.Fprintln(os.Stderr, out.stderr)
+			os.Exit(2)
+		}
+		os.Stdout.Write(out.res.Spec)
+		fmt.Println()
 	case "check":
 		if len(os.Args) < 4 {
 			usage()
